@@ -6,3 +6,6 @@ import KojenVerif.Props.C07
 #print axioms KojenVerif.C07.C07_elements_nodup
 #print axioms KojenVerif.C07.C07_action_event_keys
 #print axioms KojenVerif.C07.C07_plain_vs_suffixed
+#print axioms KojenVerif.C07.C07_file_keys_nodup
+#print axioms KojenVerif.C07.C07_key_stable_across_models
+#print axioms KojenVerif.C07.C07_shipped_sm_schemes_classified
